@@ -1,5 +1,5 @@
 (* C08 Registration validated up front. *)
-Require Import Base Regex Route Tree TreeProofs TreeWf TreeAdd TreeKeys TreeLive TreeAccept TreeComplete Router RouteSpec.
+Require Import Base Regex Route Tree TreeProofs TreeWf TreeAdd TreeKeys TreeLive TreeAccept TreeComplete TreeDispatch TreePriorityTop Router RouteSpec ValidSpec.
 
 (* In the model a rejected registration is the value None: the router state is unchanged (nothing is
    half-registered), and acceptance is decided entirely at registration time. *)
@@ -62,9 +62,22 @@ Proof.
   apply P. right. apply (in_map (fun ks0 : list kind => (ks0, rid))). exact HIn.
 Qed.
 
-(* The route-list reading "accepted iff RouteSpec.valid rs r" (valid states the same conditions on the list
-   of registered routes instead of on the tree) is evaluated against the implementation's accept/reject
-   on every generated registration; its equivalence with the statement above is not proved. *)
+(* THE SAME ON THE LIST OF ROUTES (ValidSpec.v).  [RouteSpec.valid rs r] states the conditions without any
+   tree: r is not empty; no non-final segment is optional or empty; every segment classifies on its own
+   (kinds_of); bind names are pairwise distinct along the route; at most one match-all before the end; and
+   no form of r (long; short if the last segment is optional) has the texts of a form of a registered route
+   (same_texts) or a different match-all at a position where such a form has one in the same role
+   (all_clash).  For every list of accepted registrations with ids in registration order and a fresh id:
+   the registration is accepted iff [valid] says so.  [valid] is the executable judge applied to the
+   implementation's accept/reject of every generated registration. *)
+Theorem C08_accept_iff_valid : forall compile (good : list elem -> Prop),
+  good [] -> (forall a b, good a -> good b -> render_elems a = render_elems b -> a = b) ->
+  forall rs t r rid,
+  (forall rid' r', In (rid', r') rs -> route_good good r') -> route_good good r ->
+  increasing rs -> (forall rid', In rid' (map fst rs) -> rid' < rid) ->
+  reg_all compile empty rs = Some t ->
+  (add_route compile t r rid <> None <-> valid compile rs r = true).
+Proof. intros compile good G0 Inj. exact (valid_iff_accept compile good G0 Inj). Qed.
 
 Example C08_example :
   let cp := fun _ : str => @None re in
@@ -77,3 +90,4 @@ Proof. vm_compute. repeat split. Qed.
 Redirect "assum/C08.1" Print Assumptions C08_non_final_optional_rejected.
 Redirect "assum/C08.2" Print Assumptions C08_accept_iff.
 Redirect "assum/C08.3" Print Assumptions C08_accepted_reachable.
+Redirect "assum/C08.4" Print Assumptions C08_accept_iff_valid.
